@@ -100,6 +100,12 @@ pub fn flags_for(prop: &str) -> Flags {
 }
 
 pub fn cfg_for(prop: &str, seed: u64, index: u64) -> HistCfg {
+    cfg_for_tier(prop, seed, index, false)
+}
+
+/// `thorough`: every fourth history is four times as long (accumulating errors), and larger
+/// cluster sizes are used on FAT32 too.
+pub fn cfg_for_tier(prop: &str, seed: u64, index: u64, thorough: bool) -> HistCfg {
     let mut rng = Rng::from_parts(&[seed, index, 0xC0F6, prop.bytes().fold(0u64, |a, b| a * 131 + b as u64)]);
     let profile = match prop {
         "C01" => *rng.pick(&[Profile::Rw, Profile::Rw, Profile::Rw, Profile::Mixed]),
@@ -118,7 +124,8 @@ pub fn cfg_for(prop: &str, seed: u64, index: u64) -> HistCfg {
         _ => Some(rng.chance(1, 4)),
     };
     let is_fat32 = fat32 == Some(true);
-    let max_spc = if is_fat32 { *rng.pick(&[1u32, 1, 2, 8]) } else { *rng.pick(&[1u32, 1, 2, 4, 8, 8, 32, 128]) };
+    let max_spc = if is_fat32 { if thorough { *rng.pick(&[1u32, 1, 2, 8, 16, 64]) } else { *rng.pick(&[1u32, 1, 2, 8]) } } else { *rng.pick(&[1u32, 1, 2, 4, 8, 8, 32, 128]) };
+    let long = thorough && index % 4 == 0;
     let leave_free = match profile {
         Profile::Fill => Some((*rng.pick(&[0u32, 1, 2, 3, 17, 130]), rng.below(3) as u32)),
         _ => {
@@ -136,7 +143,7 @@ pub fn cfg_for(prop: &str, seed: u64, index: u64) -> HistCfg {
         profile,
         limits,
         id_offset: *rng.pick(&[0u32, 5000, 5000, 0xFFFF_FFF0]),
-        nops: 20 + rng.usize_below(if profile == Profile::Fill || profile == Profile::Grow { 300 } else { 180 }),
+        nops: (20 + rng.usize_below(if profile == Profile::Fill || profile == Profile::Grow { 300 } else { 180 })) * if long { 4 } else { 1 },
         two_parts: limits.2 >= 2 && rng.chance(1, 2),
         fat32,
         max_spc,
@@ -393,7 +400,7 @@ pub fn run_model_check(ctx: &Ctx, prop: &str, quick_n: usize, thorough_n: usize)
     }
     if let Some(rp) = &ctx.replay {
         let idx = rp.get("case").and_then(|c| c.get("history_index")).and_then(|x| x.as_u64()).unwrap_or(0);
-        let cfg = cfg_for(prop, ctx.seed, idx);
+        let cfg = cfg_for_tier(prop, ctx.seed, idx, !ctx.quick());
         let mut rep = Report::new();
         match run_history(&cfg) {
             Ok(e) => {
@@ -410,7 +417,7 @@ pub fn run_model_check(ctx: &Ctx, prop: &str, quick_n: usize, thorough_n: usize)
     }
     let n = ctx.arg_u64("histories").map(|x| x as usize).unwrap_or(ctx.pick(quick_n, thorough_n));
     let total = report::parallel(ctx.threads, n, |i, rep| {
-        let cfg = cfg_for(prop, ctx.seed, i as u64);
+        let cfg = cfg_for_tier(prop, ctx.seed, i as u64, !ctx.quick());
         match run_history(&cfg) {
             Ok(e) => {
                 if prop == "C16" && i % 5 == 0 && cfg.fat32 == Some(true) && !e.aborted && !cfg.two_parts {
